@@ -1,6 +1,7 @@
 (** Correspondence runner for C06: ties Model/QueryDoc.v (documented grammar, printer, meaning) and
     Model/Parser.v to the implementation's observed behaviour.  No proofs. *)
 From ZV Require Import Lib.Base Model.Query Generated.ParserTables Model.Parser Model.QueryDoc.
+From ZV Require Model.Regex Model.RegexCase.
 Open Scope N_scope.
 
 Definition rq_d (rq : str -> rqres) (t : str) : rqres_d :=
@@ -16,15 +17,20 @@ Fixpoint has_regex_field (e : dexpr) : bool :=
   | _ => false
   end.
 
-(** case = (abstract query, the harness' printed string, engine answers, Regexp.setCase(auto) answers,
-            query.Parse's outcome on that string) *)
-Definition c06case := (dquery * str * oracle_table * list (str * bool) * outcome Q)%type.
+(** case = (abstract query, the harness' printed string, engine answers, syntax trees of the proper regexps,
+            query.Parse's outcome on that string).  The parser model decides case:auto with the model of
+    LowerRegexp on the tree ([t_auto] = re_auto), the documented meaning with the documented rule
+    ([t_upper] = has_upper_re: an upper-case letter at any position of the tree). *)
+Definition c06case := (dquery * str * oracle_table * list (str * Regex.re) * outcome Q)%type.
+
+Definition t_upper (t : list (str * Regex.re)) (k : str) : bool :=
+  match lookup k t with Some a => RegexCase.has_upper_re a | None => false end.
 
 Definition c06_ok (c : c06case) : bool :=
   let '(dq, s, tab, autos, gres) := c in
   str_eqb (render dq) s &&                                                              (* same printer *)
   outcome_q_eqb (parse (t_rq tab) (t_auto autos) (t_compile tab) (t_lang tab) s) gres && (* model parser = Parse *)
   (existsb (existsb has_regex_field) dq ||
-   outcome_q_eqb (Ok (Simplify (den (rq_d (t_rq tab)) (t_auto autos) (t_lang tab) dq))) gres). (* documented meaning = Parse *)
+   outcome_q_eqb (Ok (Simplify (den (rq_d (t_rq tab)) (t_upper autos) (t_lang tab) dq))) gres). (* documented meaning = Parse *)
 
 Definition c06_mismatches (cs : list c06case) : list N := bad_indexes c06_ok cs.
